@@ -403,6 +403,17 @@ func famRawSrv(w *World, c *Case, rng *rand.Rand) {
 				if ok && (shape == "Unary" || shape == "ClientStream") {
 					w.Violate("C16", "non-streaming-response-count-reported-success", "raw server deviation %s/%s: zero complete responses but the caller was told the call succeeded", kind, shape)
 				}
+				// a close frame in the middle of a message is a malformed frame sequence on every
+				// shape: a streaming caller must not be told that the responses ended normally
+				midMessage := kind == "drop-msg-cont" || kind == "size-plus1" || kind == "size-64MiB" || kind == "size-max"
+				if midMessage {
+					w.Stat("rawsrv_close_inside_message", 1)
+				}
+				// (drop-msg-first on a single-frame message leaves a well-formed empty response stream)
+				if ok && midMessage {
+					w.Violate("C09", "close-inside-message-reported-as-end-of-stream", "raw server deviation %s/%s: the stream was closed with OK in the middle of a response message, the caller was told the call ended normally", kind, shape)
+					w.Violate("C01", "truncated-message-reported-as-end-of-stream", "raw server deviation %s/%s: the stream was closed with OK in the middle of a response message, the caller was told the call ended normally", kind, shape)
+				}
 			case expect == "rexhausted":
 				w.Stat("rawsrv_expect_rexhausted", 1)
 				// An Invoke reads while the burst arrives: if it keeps up, its window is restored
